@@ -224,8 +224,12 @@ def gen_http_history(rng, tier):
     """requests through the real executable (handler paths differ from the library: body assembly,
     client auto-creation, whatever the handler does around the library call)"""
     n = rng.randint(3, 6) if tier != "thorough" else rng.randint(8, 16)
-    reqs = []
-    for i in range(n):
+    # always: a version, a large snapshot (several pages, its own write takes a while), a version —
+    # whatever the handler does around the library call for big bodies is then inside the trace
+    reqs = ["http@0 POST av hyph=latest:1 hyph=1 history b:7",
+            f"http@0 POST as hyph=latest:1 hyph=1 snapshot r:{rng.choice([70000, 200000, 300000])}",
+            "http@0 POST av hyph=latest:1 hyph=1 history r:5000"]
+    for i in range(1, n):
         size = rng.choice([1, 100, 5000, 70000, 200000])
         body = f"r:{size}" if size > 12 else "b:7"
         if i == 0 or rng.random() < 0.6:
